@@ -41,6 +41,22 @@ pub struct PosVector {
 impl PosVector {
     /// a version-2 proof of space carrying this vector (any challenge: it does
     /// not enter the plot id nor the quality string)
+    /// the same vector with other proof bytes (None: unchanged)
+    pub fn clone_with_proof(&self, proof: Option<Vec<u8>>) -> PosVector {
+        PosVector {
+            name: self.name,
+            challenge: self.challenge,
+            strength: self.strength,
+            plot_index: self.plot_index,
+            meta_group: self.meta_group,
+            pool_pk: self.pool_pk,
+            pool_contract: self.pool_contract,
+            plot_pk: self.plot_pk,
+            proof: proof.unwrap_or_else(|| self.proof.clone()),
+            quality: self.quality,
+        }
+    }
+
     pub fn make(&self, challenge: Bytes32) -> ProofOfSpace {
         ProofOfSpace::new(
             challenge,
